@@ -26,6 +26,9 @@ pub struct Step {
     pub published_today: bool,
     pub lookup: String,
     pub force: bool,
+    /// further look-ups by the same run (other years: several year files written by one run)
+    #[serde(default)]
+    pub more: Vec<String>,
 }
 
 #[derive(Clone, Debug, Serialize, Deserialize, PartialEq)]
@@ -115,7 +118,7 @@ pub fn generate(seed: u64, tier: Tier) -> Sc {
         let ago = *r.pick(&[1i64, 2, 3, 7, 10, 30, 100, 400]);
         let pt = (vtoday - Duration::days(ago)).max(first + Duration::days(2));
         if pt < vtoday {
-            Some(Step { today: pt.to_string(), published_today: r.chance(1, 2), lookup: (pt - Duration::days(r.range(0, 6))).max(first).to_string(), force: false })
+            Some(Step { today: pt.to_string(), published_today: r.chance(1, 2), lookup: (pt - Duration::days(r.range(0, 6))).max(first).to_string(), force: false, more: vec![] })
         } else {
             None
         }
@@ -124,6 +127,16 @@ pub fn generate(seed: u64, tier: Tier) -> Sc {
     };
     // If the prior run already covers the victim's look-up the victim would not download: force it sometimes, else ask beyond.
     let vforce = r.chance(1, 5);
+    // A third of the victims look further dates up, in other years: one run then writes several
+    // year files, one after the other, and can die with some complete and one torn.
+    let mut vmore = vec![];
+    if r.chance(1, 3) {
+        for _ in 0..r.range(1, 2) {
+            let y = cal.start_year + r.range(0, cal.n_years as i64 - 1) as i32;
+            let d = if r.chance(1, 2) { ymd(y, 1, 1) + Duration::days(r.range(0, 6)) } else { ymd(y, 12, 31) - Duration::days(r.range(0, 200)) };
+            vmore.push(d.min(vtoday).max(first).to_string());
+        }
+    }
     let mut extra = vec![];
     for _ in 0..2 {
         extra.push(interesting_date(&mut r, &boc, vtoday).to_string());
@@ -132,7 +145,7 @@ pub fn generate(seed: u64, tier: Tier) -> Sc {
         cal,
         format,
         prior,
-        victim: Step { today: vtoday.to_string(), published_today: vpt, lookup: vlookup.to_string(), force: vforce },
+        victim: Step { today: vtoday.to_string(), published_today: vpt, lookup: vlookup.to_string(), force: vforce, more: vmore },
         max_write: *r.pick(&[usize::MAX, usize::MAX, usize::MAX, 4096, 1000, 512]),
         later_day_offset: *r.pick(&[1i64, 1, 2, 3, 7, 12, 40]),
         later_published_today: r.chance(1, 2),
@@ -145,7 +158,7 @@ pub fn generate(seed: u64, tier: Tier) -> Sc {
         pre_crash: if r.chance(1, 3) {
             let ago = *r.pick(&[1i64, 2, 5, 20, 200]);
             let pt = (vtoday - Duration::days(ago)).max(first + Duration::days(2));
-            Some((Step { today: pt.to_string(), published_today: r.chance(1, 2), lookup: (pt - Duration::days(r.range(0, 6))).max(first).to_string(), force: r.chance(1, 2) }, r.next_u64()))
+            Some((Step { today: pt.to_string(), published_today: r.chance(1, 2), lookup: (pt - Duration::days(r.range(0, 6))).max(first).to_string(), force: r.chance(1, 2), more: vec![] }, r.next_u64()))
         } else {
             None
         },
@@ -167,7 +180,7 @@ fn run_step_clock_ahead(boc: &Arc<BocData>, st: &Step, max_write: usize, hash_se
         force: st.force,
         cache: CacheKind::Csv,
         mem_in: MemState::new(),
-        lookups: vec![pd(&st.lookup)],
+        lookups: std::iter::once(&st.lookup).chain(st.more.iter()).map(|d| pd(d)).collect(),
         app_rows: None,
         app_files: 1,
         app_console: false,
@@ -492,6 +505,9 @@ impl Engine for C14 {
         if files_written.len() >= 2 {
             st.bump("probe.two_year_files_written");
         }
+        if files_written.len() >= 3 {
+            st.bump("probe.three_or_more_year_files_written");
+        }
         if writes.len() >= 2 && files_written.len() < writes.len() {
             st.bump("probe.file_written_in_several_write_calls");
         }
@@ -534,6 +550,9 @@ impl Engine for C14 {
             }
             dates.push(vtoday);
             dates.push(pd(&sc.victim.lookup));
+            for m in &sc.victim.more {
+                dates.push(pd(m));
+            }
             for e in &sc.extra_dates {
                 dates.push(pd(e));
             }
@@ -670,6 +689,16 @@ impl Engine for C14 {
         if sc.victim.force {
             let mut s = sc.clone();
             s.victim.force = false;
+            c.push(s);
+        }
+        for i in 0..sc.victim.more.len() {
+            let mut s = sc.clone();
+            s.victim.more.remove(i);
+            c.push(s);
+        }
+        if sc.pre_crash_clock_ahead != 0 {
+            let mut s = sc.clone();
+            s.pre_crash_clock_ahead = 0;
             c.push(s);
         }
         for i in 0..sc.cal.gaps.len() {
